@@ -31,7 +31,12 @@ type PropDef struct {
 
 var Props = map[string]*PropDef{}
 
-func register(p *PropDef) { Props[p.ID] = p }
+func register(p *PropDef) {
+	// the rule strings describe the domain of the first build; what every
+	// generator draws in addition is listed per round in DESIGN.md
+	p.Rule += "; input dimensions added later (typed-nil / multi-interface As, several error results, callbacks and bodies that call Invoke, panic kinds, empty tags, deep object nesting, decorators of unprovided keys, ...) are listed in DESIGN.md 6.1"
+	Props[p.ID] = p
+}
 
 func failFrom(f *Finding) *Failure {
 	if f == nil {
